@@ -44,6 +44,7 @@ struct Config {
     int nt = -1, t = -1, minR = 0, maxR = 99, maxW = 99, maxL = 99, minW = 0;
     int err = 0;                 // 0: frames without error positions, 1: frames with, 2: both
     int custom = 0;              // 1: frames with the scripted custom lexer
+    long stride_count = 0;       // > 0: explore only this many grammars per frame, evenly spread (with a deterministic jitter) over the frame's whole enumeration order
     int long_words = 0;          // > 0: every grammar also gets the inputs a^K b, a^K and b a^K b for all terminals a, b (long discard runs, long traces)
     int off = -1, noff = -1;     // lifted frames: select by number of filler terminals / nonterminals (-1: any)
     double deadline = 1e18;
@@ -915,8 +916,14 @@ static void enumerate_frame(FrameBase& f) {
     std::vector<Gram> precs;
     auto run_one = [&](const Gram& gg) { explore(f, gg); };
     long done = 0;
-    for (unsigned long long idx = 0; idx < total; ++idx) {
-        if ((long long)(idx % cfg.nshards) != cfg.shard) continue;
+    const bool strided = cfg.stride_count > 0 && total > (unsigned long long)cfg.stride_count;
+    const unsigned long long step = strided ? total / (unsigned long long)cfg.stride_count : 1;
+    const unsigned long long niter = strided ? (unsigned long long)cfg.stride_count : total;
+    for (unsigned long long it = 0; it < niter; ++it) {
+        // strided: the it-th of stride_count evenly spaced positions, moved inside its interval by a fixed pseudo-random offset so that every digit of the
+        // mixed-radix index (left sides are the low-order digits) varies; the corpus is a fixed, documented subset, not a random one
+        const unsigned long long idx = strided ? it * step + (it * 0x9E3779B97F4A7C15ull >> 11) % step : it;
+        if ((long long)(it % cfg.nshards) != cfg.shard) continue;
         if (cfg.max_grammars_per_frame >= 0 && done >= cfg.max_grammars_per_frame) break;
         if ((done & 1023) == 0 && elapsed() > cfg.deadline) { deadline_hit = true; ctr["frames_cut_by_deadline"]++; return; }
         ++done;
@@ -993,6 +1000,7 @@ int main(int argc, char** argv) {
         else if (a == "--custom") cfg.custom = std::atoi(next().c_str());
         else if (a == "--off") cfg.off = std::atoi(next().c_str());
         else if (a == "--long-words") cfg.long_words = std::atoi(next().c_str());
+        else if (a == "--stride-count") cfg.stride_count = std::atol(next().c_str());
         else if (a == "--noff") cfg.noff = std::atoi(next().c_str());
         else if (a == "--deadline") cfg.deadline = std::atof(next().c_str());
         else if (a == "--prec-levels") cfg.prec_levels = std::atoi(next().c_str());
